@@ -811,6 +811,7 @@ pub fn drop_out(out: usize) {
         let s = ev("out_dropped", out as i64, 0);
         w().outs[out].dropped_at = Some(s);
         drop(ps);
+        ev("out_drop_done", out as i64, 0);
     }
 }
 
